@@ -343,6 +343,26 @@ func reportModel(limit uint64, checkPause bool) porcupine.Model {
 	}
 }
 
+// pauseModel: the byte accounting of the reports that advanced. The library updates the block-index high-water mark
+// and the byte total in two separate atomic steps, so the order in which concurrent reports are *accounted* need not
+// be the order in which they advanced the index; neither C07 nor C08 asks for that. What C08 asks is that - in the
+// accounting order, which must respect real time - exactly the reports that leave the total at or past the limit
+// return the pause signal.
+func pauseModel(limit uint64) porcupine.Model {
+	return porcupine.Model{
+		Init: func() interface{} { return uint64(0) },
+		Step: func(state, input, output interface{}) (bool, interface{}) {
+			tot := state.(uint64) + input.(repIn).size
+			want := limit > 0 && tot >= limit
+			return want == output.(repOut).paused, tot
+		},
+		Equal: func(a, b interface{}) bool { return a.(uint64) == b.(uint64) },
+		DescribeOperation: func(input, output interface{}) string {
+			return fmt.Sprintf("account(size=%d) -> paused=%v", input.(repIn).size, output.(repOut).paused)
+		},
+	}
+}
+
 func fsmDataConcurrent(r *RunCtx) {
 	fw := newFsmWorld(r)
 	if r.HarnessErr != "" {
@@ -459,25 +479,43 @@ func fsmDataConcurrent(r *RunCtx) {
 		r.Failf("C07", "index-total", dirOf(k)+"|concurrent", "%s block-index total is %d, highest position reported is %d", dirOf(k), idx, maxIdx)
 	}
 	sort.Slice(ops, func(i, j int) bool { return ops[i].Call < ops[j].Call })
-	res, _ := porcupine.CheckOperationsVerbose(reportModel(limit, limitedDir), ops, 20*time.Second)
-	switch res {
-	case porcupine.Illegal:
+	describe := func() []string {
 		var desc []string
 		for _, o := range ops {
 			desc = append(desc, fmt.Sprintf("c%d[%d,%d] idx=%d size=%d adv=%v paused=%v", o.ClientId, o.Call, o.Return, o.Input.(repIn).idx, o.Input.(repIn).size, o.Output.(repOut).advanced, o.Output.(repOut).paused))
 		}
-		prop, what := "C07", "advancing set"
-		// decide whether the accounting alone is linearizable: if yes, the pause outputs are the problem (C08)
-		if limitedDir {
-			if r2, _ := porcupine.CheckOperationsVerbose(reportModel(limit, false), ops, 20*time.Second); r2 == porcupine.Ok {
-				prop, what = "C08", "pause signals"
-			}
-		}
-		r.Failf(prop, "not-linearizable", dirOf(k)+"|"+what, "concurrent report history (limit %d) has no linearization against the sequential model (%s): %v", limit, what, desc)
+		return desc
+	}
+	// C07: which reports advanced (high-water-mark model)
+	res, _ := porcupine.CheckOperationsVerbose(reportModel(limit, false), ops, 20*time.Second)
+	switch res {
+	case porcupine.Illegal:
+		r.Failf("C07", "not-linearizable", dirOf(k)+"|advancing set", "concurrent report history (limit %d) has no linearization against the sequential model (advancing set): %v", limit, describe())
 	case porcupine.Unknown:
 		r.Probe("porcupine-unknown")
 	default:
 		r.Probe("porcupine-ok")
+	}
+	// C08: pause signals over the accounting order of the reports that advanced; a report that did not advance is not
+	// accounted and never pauses
+	if limitedDir {
+		var adv []porcupine.Operation
+		for _, o := range ops {
+			out := o.Output.(repOut)
+			if out.advanced {
+				adv = append(adv, o)
+			} else if out.paused {
+				r.Failf("C08", "pause-without-progress", dirOf(k), "a report that did not advance the %s index returned the pause signal: %v", dirOf(k), describe())
+			}
+		}
+		switch r2, _ := porcupine.CheckOperationsVerbose(pauseModel(limit), adv, 20*time.Second); r2 {
+		case porcupine.Illegal:
+			r.Failf("C08", "not-linearizable", dirOf(k)+"|pause signals", "concurrent report history (limit %d): no accounting order of the advancing reports, consistent with real time, explains the pause signals: %v", limit, describe())
+		case porcupine.Unknown:
+			r.Probe("porcupine-unknown")
+		default:
+			r.Probe("porcupine-pause-ok")
+		}
 	}
 	if len(ops) >= 4 {
 		r.Probe("nontrivial")
